@@ -90,4 +90,29 @@ theorem report_order_irrelevant (canon : Key → Key) (contents : Item → List 
   obtain ⟨kc, ⟨⟨i, _, hi⟩, _⟩, rfl⟩ := hc
   exact hwf i kc hi
 
+
+
+/-- report-level statement: when all inputs agree on a function's start line, the report carries it -/
+theorem report_start_common (canon : Key → Key) (contents : Nat → List (Key × Cov))
+    (hwf : ∀ i, ∀ kc ∈ contents i, kc.2.WF) (order : List Nat) (k : Key) (n : Name) (s : Nat)
+    (agree : ∀ i ∈ order, ∀ kc ∈ contents i, canon kc.1 = k → ∀ g, get? kc.2.functions n = some g → g.start = s)
+    (c : Cov) (hc : get? (reportOf canon contents order) k = some c) (f : Fn)
+    (hf : get? c.functions n = some f) : f.start = s := by
+  rw [report_entry] at hc
+  generalize hL : (((order.flatMap contents).filter fun kc => canon kc.1 = k).map (·.2)) = L at hc
+  have hmem : ∀ c' ∈ L, c'.WF ∧ ∀ g, get? c'.functions n = some g → g.start = s := by
+    intro c' hc'
+    rw [← hL] at hc'
+    simp only [List.mem_map, List.mem_filter, List.mem_flatMap] at hc'
+    obtain ⟨kc, ⟨⟨i, hi, hkc⟩, hk⟩, rfl⟩ := hc'
+    exact ⟨hwf i kc hkc, agree i hi kc hkc (by simpa using hk)⟩
+  cases L with
+  | nil => simp [foldInto] at hc
+  | cons a cs =>
+    rw [foldInto_none_cons] at hc
+    cases hc
+    refine C01_start_common_when_agree (combL (.leaf a) cs) ?_ n s ?_ f hf
+    · intro c' hc'; rw [combL_leaves] at hc'; exact (hmem c' (by simpa [Tree.leaves] using hc')).1
+    · intro c' hc'; rw [combL_leaves] at hc'; exact (hmem c' (by simpa [Tree.leaves] using hc')).2
+
 end Grcov.Report
